@@ -60,7 +60,7 @@ def subsets(inst):
     return out
 
 
-def run_removal(inst, leaving, seed, lines=False):
+def run_removal(inst, leaving, seed, lines=False, second=False):
     from pydcop.dcop.scenario import Scenario, DcopEvent, EventAction
     from pydcop.distribution.objects import Distribution
     from pydcop.infrastructure.run import run_local_thread_dcop
@@ -150,7 +150,72 @@ def run_removal(inst, leaving, seed, lines=False):
                     out["after"]["t"] = time.time() - t0
                 except Exception as e:
                     out["errors"].append("snapshot: %s: %s" % (type(e).__name__, e))
+                if second and "after" in out and not out["errors"]:
+                    try:
+                        second_event()
+                    except Exception as e:
+                        import traceback
+
+                        out["errors"].append("second event: " + traceback.format_exc()[-500:])
             out["observer_done"] = True
+
+        def second_event():
+            """a second removal event once the first repair is over: the departing agents are drawn among the survivors
+            (preferably a new host of a re-hosted computation), at most k of them, at least two agents stay"""
+            rr = _r.Random(seed + 17)
+            S2 = out["second"] = {}
+            survivors = sorted(a for a, ag in AG.items() if a not in leaving and ag.t.is_alive())
+            kk = min(inst["k"], len(survivors) - 2)
+            if kk < 1 or any(a not in leaving for a, _ in out["fatal"]):
+                S2["skipped"] = "too few survivors" if kk < 1 else "a surviving agent crashed"
+                return
+            # bounded wait on a logical condition: the replication level is back (re-hosted computations are replicated
+            # again by their new host, lost replicas are placed again by their owners)
+            want = min(inst["k"], len(survivors) - 1)
+            deadline = time.time() + 8
+            while True:
+                holders = {c: sorted(a for a in survivors if c in AG[a].replication_comp.hosted_replicas) for c in comps}
+                if all(len(h) >= want for h in holders.values()) or time.time() > deadline:
+                    break
+                time.sleep(0.05)
+            S2["level_restored"] = all(len(h) >= want for h in holders.values())
+            S2["level_wanted"] = want
+            deadline = time.time() + 10
+            while time.time() < deadline:
+                st = dict(o.mgt._agts_state)
+                if all(v == "running" for a, v in st.items()):
+                    break
+                time.sleep(0.01)
+            else:
+                S2["skipped"] = "agents' states never back to running: %r" % (dict(o.mgt._agts_state),)
+                return
+            snap = snapshot()
+            moved = sorted(a for a in survivors if set(snap["hosted"].get(a, [])) - set(mapping[a]))
+            pool = moved if moved and rr.random() < 0.7 else survivors
+            first = rr.choice(pool)
+            leaving2 = sorted({first} | set(rr.sample(survivors, rr.randint(1, kk)))) [:kk] if kk > 1 and rr.random() < 0.5 else [first]
+            S2["leaving"] = leaving2
+            S2["before"] = snap
+            S2["replicas_before"] = {a: sorted(AG[a].replication_comp.hosted_replicas) for a in survivors}
+            S2["replica_hosts_before"] = {}
+            for c in comps:
+                try:
+                    S2["replica_hosts_before"][c] = sorted(o.discovery.replica_agents(c))
+                except Exception as e:
+                    S2["replica_hosts_before"][c] = "%s" % type(e).__name__
+            n0 = out["n_first_reports"] = len(out["reports"])
+            sc2 = Scenario([DcopEvent("e2", actions=[EventAction("remove_agent", agent=a) for a in leaving2])])
+            out["timeline"].append(("event2", time.time() - t0))
+            o._events_iterator = iter(sc2)
+            o._process_event()
+            deadline = time.time() + 15
+            while time.time() < deadline and len(out["reports"]) <= n0:
+                time.sleep(0.02)
+            S2["reports"] = out["reports"][n0:]
+            if S2["reports"]:
+                time.sleep(1.2)
+                S2["after"] = snapshot()
+            S2["fatal"] = list(out["fatal"])
 
         th = threading.Thread(target=observer, name="pv_observer", daemon=True)
         th.start()
@@ -173,7 +238,7 @@ def run_removal(inst, leaving, seed, lines=False):
 
         # the solver never terminates: the run is ended by the harness once the observation is made (bounded wait)
         def stopper():
-            th.join(30)
+            th.join(70 if second else 30)
             out["timeline"].append(("stopper", time.time() - t0))
             try:
                 # what the orchestrator's own timer does when it fires
@@ -187,7 +252,7 @@ def run_removal(inst, leaving, seed, lines=False):
         threading.Thread(target=injector, name="pv_injector", daemon=True).start()
         threading.Thread(target=stopper, name="pv_stopper", daemon=True).start()
         out["timeline"].append(("run", time.time() - t0))
-        o.run(None, timeout=40)
+        o.run(None, timeout=90 if second else 40)
         out["timeline"].append(("run returned", time.time() - t0))
         th.join(5)
         out["status"] = o.status
@@ -210,7 +275,7 @@ def run_removal(inst, leaving, seed, lines=False):
 
         drv = threading.Thread(target=guarded, name="pv_driver", daemon=True)
         drv.start()
-        drv.join(100)
+        drv.join(150 if second else 100)
         if drv.is_alive():
             out["errors"].append("harness watchdog: driver still blocked after 100 s")
         out["errors"] += err
@@ -275,7 +340,7 @@ def analyse(inst, r):
     owner = {c: a for a, cs in mapping.items() for c in cs}
     orphaned = sorted(c for c in comps if owner[c] in leaving)
     S["orphaned"] = len(orphaned)
-    reports = r["reports"]
+    reports = r["reports"][:r.get("n_first_reports", len(r["reports"]))]
     survivors = sorted(set(mapping) - leaving)
     replicas_before = r["replicas_before"]
     holders = {c: sorted(a for a, reps in replicas_before.items() if c in reps) for c in comps}
@@ -353,6 +418,66 @@ def analyse(inst, r):
     return P, S
 
 
+def analyse_second(inst, r):
+    """the same oracle for the second event of the run; 'owner' is the placement observed after the first repair"""
+    S2 = r.get("second") or {}
+    St = {"done": False}
+    if not S2 or "skipped" in S2 or "leaving" not in S2:
+        St["skipped"] = S2.get("skipped", "not run")
+        return [], St
+    comps = r["computations"]
+    leaving1, leaving2 = set(r["leaving"]), set(S2["leaving"])
+    before = S2["before"]
+    owner = {}
+    for a, cs in before["hosted"].items():
+        if isinstance(cs, list) and a not in leaving1:
+            for c in cs:
+                owner.setdefault(c, a)
+    if sorted(owner) != sorted(comps):
+        St["skipped"] = "placement before the second event incomplete"
+        return [], St
+    survivors = sorted(a for a in r["mapping"] if a not in leaving1 and a not in leaving2)
+    orphaned = sorted(c for c in comps if owner[c] in leaving2)
+    holders = {c: sorted(a for a, reps in S2["replicas_before"].items() if c in reps) for c in comps}
+    St["over_replicated"] = {c: holders[c] for c in comps if len(holders[c]) > inst["k"]}
+    St.update(done=True, orphaned=len(orphaned), level_restored=bool(S2.get("level_restored")),
+              in_scope=all(any(h not in leaving2 for h in holders[c]) for c in orphaned))
+    ctx = " [second event: %s, k=%d, first departure %r, then %r, placement before %r, replica holders %r]" % (
+        inst["algo"], inst["k"], sorted(leaving1), sorted(leaving2), {a: cs for a, cs in before["hosted"].items() if a not in leaving1}, holders)
+    P = []
+    if not S2.get("level_restored"):
+        short = {c: holders[c] for c in comps if len(holders[c]) < S2["level_wanted"]}
+        P.append(("replication-level-not-restored-after-repair",
+                  "8 s after the first repair (departure of %r) these computations still have fewer than %d replicas on the surviving agents: %r" % (
+                      sorted(leaving1), S2["level_wanted"], short) + ctx))
+    reports = S2.get("reports") or []
+    crashed = sorted({a for a, e in S2.get("fatal", []) if a not in leaving1 and a not in leaving2})
+    if not reports:
+        if crashed:
+            errs = sorted({e.split(":")[0] for a, e in S2["fatal"] if a in crashed})
+            P.append(("agents-crash-after-repair:%s:%s" % (inst["algo"], "+".join(errs)), "surviving agents %r died: %s" % (crashed, [e for a, e in S2["fatal"] if a in crashed][0]) + ctx))
+        elif St["in_scope"]:
+            P.append(("no-repair-report", "second removal: the orchestrator never reported a repair status within 15 s (orphaned %r)" % (orphaned,) + ctx))
+        return P, St
+    if len(reports) > 1:
+        P.append(("several-repair-reports", "second removal reported %d times" % len(reports) + ctx))
+    status = reports[0]["status"]
+    St["status"] = status
+    after = S2.get("after")
+    if after is None:
+        return P, St
+    bad, St["rehosted"] = placement_problems(after, comps, owner, leaving1 | leaving2, survivors, holders, orphaned)
+    if crashed:
+        errs = sorted({e.split(":")[0] for a, e in S2["fatal"] if a in crashed})
+        P.append(("agents-crash-after-repair:%s:%s" % (inst["algo"], "+".join(errs)), "surviving agents %r died: %s" % (crashed, [e for a, e in S2["fatal"] if a in crashed][0]) + ctx))
+    elif status == "OK" and bad:
+        P.append(("reported-OK-but:%s" % bad[0][0], "repair reported OK but " + bad[0][2] + ctx))
+    if not crashed and status != "OK" and St["in_scope"]:
+        P.append(("repair-failed-in-scope:%s" % (bad[0][0] if bad else "placement-fine"),
+                  "repair reported %r although every orphaned computation had a surviving replica; %s" % (status, bad[0][2] if bad else "placement is fine") + ctx))
+    return P, St
+
+
 def level_problems(seed, i):
     """the premise of the property, made checkable: replication asked at level k with ample capacity everywhere reaches
     min(k, number of other agents) replicas for every computation (deterministic scheduler over the real UCSReplication /
@@ -405,8 +530,21 @@ def worker(job):
         inst = gen_instance(rng)
         rseed = (seed * 1000003 + idx * 23 + common_hash(leaving)) & 0x7FFFFFFF
         try:
-            r = run_removal(inst, leaving, rseed, lines=bool(job.get("lines")) and idx % 2 == 0)
+            two = (idx + len(leaving) + common_hash(leaving)) % 2 == 0
+            r = run_removal(inst, leaving, rseed, lines=bool(job.get("lines")) and idx % 2 == 0, second=two)
             P, S = analyse(inst, r)
+            if two and not any(k.startswith("harness:") for k, _ in P):
+                P2, St = analyse_second(inst, r)
+                P = P + P2
+                R.bump("second_event", "judged" if St.get("done") else "skipped: %s" % str(St.get("skipped"))[:60])
+                if St.get("done"):
+                    R.count("second_events_judged")
+                    R.count("second_event_orphaned_computations", St.get("orphaned", 0))
+                    R.count("second_event_rehosted_computations", St.get("rehosted", 0))
+                    R.bump("second_event_status", str(St.get("status")))
+                    R.bump("second_event_scope", "surviving-replica-for-every-orphan" if St.get("in_scope") else "some-orphan-without-surviving-replica")
+                    R.bump("replication_level_restored_before_second_event", str(St.get("level_restored")))
+                    R.bump("replicas_per_computation_after_first_repair", "more than k somewhere" if St.get("over_replicated") else "at most k everywhere")
         except Exception:
             import traceback
 
